@@ -12,7 +12,8 @@ VERIF = os.path.dirname(os.path.dirname(os.path.abspath(__file__)))
 REPO = os.environ.get("VERIF_REPO", "/repo")
 P2X = os.path.join(VERIF, "tools/extract/target/release/p2x")
 GEN = os.path.join(VERIF, "gen")
-EVIDENCE = os.path.join(VERIF, "evidence")
+# evidence/ describes /repo itself; runs against another tree (selftest, seeded changes) write elsewhere
+EVIDENCE = os.path.join(VERIF, "evidence") if os.path.realpath(REPO) == "/repo" else os.path.join(VERIF, ".cache", "evidence-other-tree")
 REPLAY = os.path.join(VERIF, "replay")
 CACHE = os.path.join(VERIF, ".cache")
 
